@@ -301,7 +301,7 @@ fn short_scripts() -> Vec<Case> {
                         drain_at_ms: 1000,
                         horizon_ms: 1000 + 17_777,
                         snapshots: true,
-                        avoid_k2: true,
+                        avoid_k2: false,
                         avoid_ack_mismatch: true,
                     });
                 }
